@@ -295,6 +295,54 @@ def _guard_function(prog, g, pidx, memo):
     return ok
 
 
+def _validated_points(f, pname, guard_calls):
+    """returns a predicate (block, index) -> has every path to this point either passed a live, throwing parity test of
+    `pname` on its surviving edge or called a validating function?"""
+    blocks = f.blocks
+    nodes = f.nodes
+    tb = f.throw_blocks()
+    guard_pos = {}
+    for g in guard_calls:
+        loc = f.block_of(g)
+        if loc:
+            guard_pos.setdefault(loc[0], []).append(loc[1])
+    edge_valid = {}
+    for (b, si, s_, cn, pol) in f.branch_edges():
+        tn = nodes.get(b.term) if b.term is not None else None
+        if (tn is not None and tn.is_belief()) or cn.is_belief():
+            continue
+        if _parity_fact(None, cn, pol, pname):
+            edge_valid[(b.id, si)] = True
+    IN = {bid: True for bid in blocks}
+    IN[f.entry] = False
+    changed = True
+    it = 0
+    while changed and it < 50:
+        changed = False
+        it += 1
+        for bid, b in blocks.items():
+            if bid == f.entry:
+                continue
+            preds = []
+            for pid in b.preds:
+                pb = blocks[pid]
+                out = IN[pid] or bool(guard_pos.get(pid))
+                for si, sx in enumerate(pb.succs):
+                    if sx == bid:
+                        preds.append(out or edge_valid.get((pid, si), False))
+            new = all(preds) if preds else False
+            if new != IN[bid]:
+                IN[bid] = new
+                changed = True
+
+    def at(loc):
+        bid, idx = loc
+        if IN.get(bid, False):
+            return True
+        return any(g < idx for g in guard_pos.get(bid, []))
+    return at
+
+
 def rule_A1b(prog, fixture=False):
     res = RuleResult("A1b", "in IfftPlanR's constructor (member initialisers in declaration order) every call that receives the "
                             "transform length n or a value derived from it is preceded by a live throwing check of the parity of n "
@@ -334,25 +382,13 @@ def rule_A1b(prog, fixture=False):
         if not sinks and not guard_calls:
             res.add(key0, UNMODELLED, where, f.short, "no call receives the transform length", func=f.name, extra={"props": ["C02"]})
             continue
+        # forward must-analysis over the constructor's CFG: "the parity of n has been checked (and odd n rejected)"
+        validated_at = _validated_points(f, pname, guard_calls)
         bad = []
         for s in sinks:
-            ok = False
-            for fact in f.facts_at(s):
-                if not fact.belief and fact.rejects_by_throw and _parity_fact(None, fact.cond, fact.pol, pname):
-                    ok = True
-            for gcall in guard_calls:
-                if f.precedes(gcall, s):
-                    ok = True
-            if not ok:
+            loc = f.block_of(s)
+            if loc is None or not validated_at(loc):
                 bad.append(s)
-        if not guard_calls:
-            # a live parity check somewhere in the constructor at all?
-            any_guard = False
-            for fact in f.facts_at_block(f.exit, normal_exit=True):
-                if not fact.belief and fact.rejects_by_throw and _parity_fact(None, fact.cond, fact.pol, pname):
-                    any_guard = True
-            if not any_guard and not bad:
-                bad = sinks
         if bad:
             s = bad[0]
             res.add(key0, VIOLATED, "%s:%d" % (prog.rel(f.file), s.line), "%s validates n first" % f.short,
